@@ -408,26 +408,32 @@ def legs(ctx):
     gfn = ['POINT', 'PMAP', 'SCREEN', 'POS', 'CSRLIN', 'PEN', 'STICK', 'STRIG']
     gnums = ['-32768', '-1', '0', '1', '150', '300', '319', '320', '1000', '32767', '1E38']
     gstrs = ['""', '"A"', 'CHR$(0)', 'STRING$(255,"x")', '"U1000"', '"M+1,+1"']
-    gstm = []
-    for kw in gkw:
-        for t in A.STATEMENTS[kw]:
-            for txt in A.deviations(t, gnums, gstrs, 1 if q else 2):
-                gstm.append((kw, txt))
-    for kw in gfn:
-        for t in A.FUNCTIONS[kw]:
-            for txt in A.deviations(t, gnums, gstrs, 2):
-                gstm.append((kw, 'X=' + txt))
+    def _gstm(dev):
+        lst = []
+        for kw in gkw:
+            for t in A.STATEMENTS[kw]:
+                for txt in A.deviations(t, gnums, gstrs, dev):
+                    lst.append((kw, txt))
+        for kw in gfn:
+            for t in A.FUNCTIONS[kw]:
+                for txt in A.deviations(t, gnums, gstrs, 2):
+                    lst.append((kw, 'X=' + txt))
+        return lst
+    gstm = _gstm(1)
     screens = ['SCREEN 1'] if q else ['SCREEN 1', 'SCREEN 2', 'SCREEN 7', 'SCREEN 9', 'SCREEN 0:WIDTH 40']
     views = ['X=0', 'VIEW (100,100)-(200,150)', 'VIEW SCREEN (10,10)-(20,20),1,2', 'WINDOW (0,0)-(1,1)',
              'WINDOW SCREEN (-1,-1)-(1,1)', 'VIEW (100,100)-(200,150):WINDOW (0,0)-(1,1)', 'VIEW PRINT 2 TO 3']
     gpairs = [(sc + ':' + vw, st) for sc in screens for vw in views for st in gstm]
+    if not q:
+        # two non-default arguments in the first graphics mode only
+        gpairs += [('SCREEN 1:' + vw, st) for vw in views[:3] for st in _gstm(2)]
     gconfigs = ('api',) if q else CONFIGS
     if q:
         views = views[:2] + views[3:4] + views[5:6]
         gpairs = [(sc + ':' + vw, st) for sc in screens for vw in views for st in gstm]
     out.append(Leg('graphics', [(config, c) for config in gconfigs for c in chunked(gpairs, 100)], work_history,
                    exhaustive=True,
-                   bound='%d screens x %d VIEW/WINDOW contexts x %d graphics statement/function instantiations, '
+                   bound='%d screens x %d VIEW/WINDOW contexts x %d graphics statement/function instantiations (1 non-default argument; thorough adds 2 non-default arguments in SCREEN 1 x 3 contexts), '
                          '%d configuration(s)' % (len(screens), len(views), len(gstm), len(gconfigs))))
     out.append(Leg('trap', [(config, c) for config in CONFIGS for c in chunked(benign, 40)], work_trap,
                    exhaustive=True,
